@@ -364,6 +364,9 @@ def run_cli(case, agg):
     agg.ok(h8("c12cli", case), f"ok:cli:{case['kind']}", sample=case if case.get("files") == 3 or case.get("sv") == "update" else None)
 
 
+RULE += ". Further stages: " + 'ordered pairs / triples of records of different lengths (1 byte .. the whole area - enclosing, enclosed, abutting)'
+
+
 def plan(tier):
     return [
         CaseStage("generate", lambda: gen_cases(tier), run_gen, disjoint=True, rule="policies x names x addresses x sizes"),
